@@ -489,6 +489,28 @@ def D18():
     return f
 
 
+def D19():
+    """C13: create -dr visited the vanished paths in the iteration order of a set of ABSOLUTE paths: with two vanished
+    files of equal content the recorded previous path depended on where the tree is mounted"""
+    f = []
+    seen = {}
+    with tempdir() as d:
+        for loc in ("L1", "other/place", "x", "yy/zz", "q1", "q2", "media/cache", "a b/c"):
+            r = os.path.join(d, loc, "root")
+            os.makedirs(r)
+            mk(r, {"a.txt": "same", "b.txt": "same", "k.txt": "k"}, mtime=1700000000)
+            run("create", [r, "-h", "md5"], NOW)
+            os.remove(os.path.join(r, "a.txt"))
+            os.rename(os.path.join(r, "b.txt"), os.path.join(r, "c.txt"))
+            run("create", [r, "-h", "md5", "-dr"], "2026-03-01 12:00:07")
+            ms = sorted(x for x in os.listdir(os.path.join(r, "ascmhl")) if x.startswith("0002_"))
+            b = open(os.path.join(r, "ascmhl", ms[0]), "rb").read() if ms else b""
+            seen.setdefault(b, []).append(loc)
+    if len(seen) != 1:
+        f.append(f"the same tree and history sealed with -dr at different locations gives {len(seen)} different second manifests: {sorted(seen.values())}")
+    return f
+
+
 def _safe(fn):
     def g():
         try:
